@@ -59,6 +59,10 @@ fn run_suite<S: ShortGroupSignatureScheme + 'static>(em: &mut Emitter, base: &mu
         if k % 3 == 1 && n_claims >= 4 && !d.iter().any(|l| l == "ssn") {
             d.push("ssn".into());
         }
+        // every claim disclosed (no hidden message at all: the proof of knowledge has only its two blinding responses)
+        if k % 6 == 4 {
+            d = LABELS[..n_claims].iter().map(|l| l.to_string()).collect();
+        }
         mix.disclosed = vec![d];
         if k % 3 == 2 {
             mix.commitment = Some(2);
@@ -269,6 +273,15 @@ fn run_suite<S: ShortGroupSignatureScheme + 'static>(em: &mut Emitter, base: &mu
                         attack_json(em, suite, "simulated-proof-for-a-learned-challenge", &world, &v, false);
                     }
                 }
+            }
+            // a harvested (Ā, B̄) pair re-randomised, with a freely chosen `t` and random responses of the exact length: only
+            // the Schnorr equation (recomputed `t`) ties the pair to the reported claims — also when nothing is hidden
+            for round in 0..2 {
+                let rho = rng.scalar();
+                let resp: Vec<Scalar> = (0..hid.len() + 2).map(|_| rng.scalar()).collect();
+                let mut v = bv.clone();
+                *get_mut(&mut v, &pok_path).unwrap() = json!({"a_bar": g1_hex_c(&(abar * rho)), "b_bar": g1_hex_c(&(bbar * rho)), "t": g1_hex_c(&(G1Projective::GENERATOR * rng.scalar())), "proof": resp.iter().map(sc_hex).collect::<Vec<_>>()});
+                attack_json(em, suite, &format!("harvested-pair-free-t hidden={} #{}", hid.len(), round), &world, &v, true);
             }
             {
                 let mut v = bv.clone();
